@@ -368,6 +368,10 @@ def c10(run):
     d2, n2 = real_dumps(run, "C10:scoping", dump_sources(run)[5:], 1500 if run.quick else 12000, stride=5 if run.quick else 3)
     tlc_on_dumps(run, "C10:scoping-paths", d2, n2, ("WellFormed", "Unique"))
     n += n2
+    # and / or / not two and three deep (short-circuit jumps landing on jumps, chains of three operands): all of them
+    d3, n3 = real_dumps(run, "C10:logic", [("Gen_Expr", gen_cfg(dict(Scope="logic", ShapeLeaves=3)), {}), ("Gen_Expr", gen_cfg(dict(Scope="prec", ShapeLeaves=3)), {})], 4000, stride=1)
+    tlc_on_dumps(run, "C10:logic-paths", d3, n3, ("WellFormed", "Unique"))
+    n += n3
     # the jump-distance limit: beyond 65535 bytes the compiler must reject (a wrapped operand would break the invariants above);
     # dumps of that size are not fed to TLC, the closed-form expectation of Gen_Total is replayed instead
     run.gen_replay("Gen_Total", cfg(constants=dict(Scope="scale", MaxLen=1), invariants=("Emit",)), ["replay-total"], "C10:limits")
